@@ -1,6 +1,7 @@
 from collections import defaultdict
 from .tree import *
 from .transform import *
+import math
 import numpy as np
 
 
@@ -201,7 +202,7 @@ def cse(expressions, cse_concat=True, cse_in_brackets=False, verbose=False):
                     if any(v is None for v in values):
                         value = None
                     else:
-                        value = np.prod(values)
+                        value = math.prod(values)
                     result.append(Axis(f"cse.{idx}", value, exprlist[0].ellipsis_indices, begin_pos=exprlist[0].begin_pos, end_pos=exprlist[-1].end_pos))
                     i += len(exprlist)
                 else:
